@@ -381,7 +381,8 @@ func (f *frame) step(ins ssa.Instruction, b *ssa.BasicBlock, in map[*ssa.BasicBl
 			return false, unsupported("interface holding a symbolic pointer/closure")
 		}
 		f.e.ifaceTag(x.X.Type())
-		f.setVal(x, App(boxName(x.X.Type()), SIface, v.T))
+		// keep the box term structural (not named): devirtualisation and errors.As look at it
+		f.vals[x] = &Val{T: App(boxName(x.X.Type()), SIface, v.T), Typ: x.Type()}
 		f.e.Defs.noteBox(x.X.Type(), v.T.Sort)
 	case *ssa.TypeAssert:
 		return false, f.typeAssert(x)
